@@ -16,6 +16,8 @@ REQUIRED = [
     'Ems.C11.conventions_spec', 'Ems.C11.guess_spec', 'Ems.C11.guess_none_iff', 'Ems.C11.guess_error_iff',
     'Ems.C11.manual_wins_ties', 'Ems.C11.shoc_over_cf', 'Ems.C11.ugrid_needs_marker_and_mesh2d',
     'Ems.C11.guess_pure', 'Ems.C11.bound_stable', 'Ems.C11.rebind_refused', 'Ems.C11.copies_independent',
+    'Ems.C11.guess_maximal', 'Ems.C11.access_attaches', 'Ems.C11.access_stable', 'Ems.C11.copy_fresh',
+    'Ems.C11.no_shared_convention',
 ]
 RULE = ('(1) pristine datasets of the five detectable conventions from the shared generators; (2) every single '
         'near-miss mutation of each (Conventions marker, ems_version, cf_role, topology_dimension, each SHOC '
@@ -250,12 +252,11 @@ class History:
                 return 'INVALID'
             try:
                 o = self.datasets[d].ems
-            except RuntimeError:
+            except Exception as e:  # noqa
                 if d in self.expected:
-                    self.violations.append(('bound-not-stable', f'step {step}: dataset {d} lost its convention'))
-                return 'E:noconv'
-            except Exception:
-                return 'E:check'
+                    self.violations.append(('bound-not-stable', f'step {step}: dataset {d} has a convention attached, '
+                                            f'but dataset.ems raised {type(e).__name__}'))
+                return 'E:noconv' if isinstance(e, RuntimeError) else 'E:check'
             self._saw_attached(d, o, step)
             return f'o{self._obj_ordinal(o)}'
         if kind in ('n', 'c'):
